@@ -62,7 +62,7 @@ ASSUMPTIONS = ['scipy.signal.convolve2d (direct sums) is the reference convoluti
 def plan(tier):
     if tier == 'thorough':
         return dict(shards=16, cases=7000, timeout=2400, budget_s=620)
-    return dict(shards=8, cases=330, timeout=600, budget_s=75)
+    return dict(shards=8, cases=750, timeout=600, budget_s=70)
 
 
 def selftest():
@@ -776,6 +776,20 @@ def _run_star(case):
     case.note('star_candidate_peaks', len(cand))
     case.note('star_must_peaks', len(must))
 
+    _model = {}
+
+    def model_peaks():
+        """Classification only (never a verdict): peaks of a neighbourhood laid out on the grid
+        arange(-r, r + 1) for a non-integer r (see the known finding on non-integer min_separation)."""
+        if 'p' not in _model:
+            idx = np.arange(-msep, msep + 1)
+            gx, gy = np.meshgrid(idx, idx)
+            fpm = (gx ** 2 + gy ** 2) <= msep ** 2
+            stm, _ = ref.peak_status(conv, thr_c, fpm, mask, (by, bx) if (bx or by) else None)
+            ym, xm = np.nonzero(stm != ref.EXCLUDE)
+            _model['p'] = np.transpose((xm, ym))
+        return _model['p']
+
     # (A) every centroid within the kernel half-size of a candidate peak
     near = []
     if nW:
@@ -786,7 +800,12 @@ def _run_star(case):
             else:
                 sel = np.zeros(0, bool)
             near.append(np.nonzero(sel)[0])
-            case.check(bool(sel.any()), 'star_centroid_within_kernel_of_a_peak', mech, centroid=[xc, yc],
+            ma = mech
+            if not sel.any() and msep > 0 and not float(msep).is_integer():
+                mp = model_peaks()
+                ma = dict(mech, explained_by_fractional_offset_grid=bool(
+                    len(mp) and np.any((np.abs(mp[:, 0] - xc) <= xr + 0.5) & (np.abs(mp[:, 1] - yc) <= yr + 0.5))))
+            case.check(bool(sel.any()), 'star_centroid_within_kernel_of_a_peak', ma, centroid=[xc, yc],
                        kernel_half=[xr, yr])
             if sel.any():
                 d = np.min(np.maximum(np.abs(cand[sel, 0] - xc) / (xr + 0.5), np.abs(cand[sel, 1] - yc) / (yr + 0.5)))
@@ -797,7 +816,7 @@ def _run_star(case):
     if kind in ('dao', 'iraf'):
         ncand = len(cand)
         if ncand == 0:
-            case.check(W is None, 'star_rows_without_any_candidate_peak', mech, n=nW)
+            case.note('star_no_candidate_peak')        # then (A) already demands that no row is reported
         elif ncand <= 60:
             RC, wRC = _run(F.make(xycoords=cand.copy()), data, mask)
             rowsRC = _check_table_basics(case, F, RC, wRC, mech, 'xycoords_all')
@@ -810,14 +829,10 @@ def _run_star(case):
                 if miss and not float(msep).is_integer():
                     # classification only: are the unexplained rows the peaks of a neighbourhood laid out on
                     # the grid arange(-r, r + 1) (see the known finding on non-integer min_separation)?
-                    idx = np.arange(-msep, msep + 1)
-                    gx, gy = np.meshgrid(idx, idx)
-                    fpm = (gx ** 2 + gy ** 2) <= msep ** 2
-                    stm, _ = ref.peak_status(conv, thr_c, fpm, mask, (by, bx) if (bx or by) else None)
-                    ym, xm = np.nonzero(stm != ref.EXCLUDE)
+                    mp = model_peaks()
                     expl = False
-                    if 0 < len(xm) <= 400:
-                        Rm, _ = _run(F.make(xycoords=np.transpose((xm, ym))), data, mask)
+                    if 0 < len(mp) <= 400:
+                        Rm, _ = _run(F.make(xycoords=mp.copy()), data, mask)
                         setRm = {_key(r) for r in _table_rows(Rm, F.cols)}
                         expl = all(_key(rowsW[i]) in setRm for i in miss)
                     mrow = dict(mech, explained_by_fractional_offset_grid=bool(expl))
